@@ -176,15 +176,17 @@ def _inject(spec, rows, fault, k, fraction, tmpdir):
     kind = spec["fmt"]["format"]
     k = min(k, len(rows))
     if kind == "delimited":
-        good = gen_tables.delimited_text(rows[:k]).encode("utf-8")
-        rest = gen_tables.delimited_text(rows[k:]).encode("utf-8")
+        good = gen_tables.delimited_text(rows[:k], fmt=spec["fmt"]).encode("utf-8")
+        rest = gen_tables.delimited_text(rows[k:], fmt=spec["fmt"]).encode("utf-8")
+        quote = (spec["fmt"].get("quote_character") or '"').encode("utf-8")
         if fault == "undecodable-byte":
-            data = good + b'"a\xff\xfeb"\n' + rest
+            data = good + quote + b"a\xff\xfeb" + quote + b"\n" + rest
         elif fault == "truncated-character-at-end":
             # the file ends after the first byte of a two-byte character, with or without a line break before it
-            data = (good[:-1] if fraction % 2 and good else good) + (b"\xc3" if fraction % 4 < 2 else b'"\xc3')
+            data = (good[:-1] if fraction % 2 and good else good) + (b"\xc3" if fraction % 4 < 2 else quote + b"\xc3")
         else:
-            data = good + b'"never closed,' + rest.replace(b'"', b"'")
+            # a quote that is opened and never closed: no quote character of the dialect may follow it
+            data = good + quote + b"never closed," + rest.replace(quote, b"`")
         path = os.path.join(tmpdir, "fault.csv")
         with open(path, "wb") as f:
             f.write(data)
